@@ -812,7 +812,7 @@ class G:
         return {'float': 2.5, 'big': (1 << 64) - 1, 'neg': -(1 << 63)}[k]
 
     def from_(self, stage):
-        k = self.pick(['key', 'arr0', 'arr', 'arr-dup', 'row', 'arr-row', 'junk'] if stage != 'alias' else ['key', 'arr', 'arr-dup', 'arr-alias'])
+        k = self.pick(['key', 'arr0', 'arr', 'arr-dup', 'row', 'arr-row', 'arr-plain-alias', 'junk'] if stage != 'alias' else ['key', 'arr', 'arr-dup', 'arr-alias'])
         if k == 'key':
             return self.pick(KEYSTR)
         if k == 'arr0':
@@ -824,6 +824,9 @@ class G:
             return [x, x] if self.it.choose(2) == 0 else [x, 'B', x]
         if k == 'arr-alias':
             return ['@shift', 'A']
+        if k == 'arr-plain-alias':
+            # a plain modifier before an alias (the alias may be used again on the output side)
+            return ['LEFTCTRL', '@shift', self.pick(['A', {'row': 'A'}])]
         if k == 'row':
             return {'row': self.pick(ROWSTR)}
         if k == 'arr-row':
@@ -892,12 +895,13 @@ class G:
             return {'mappings': alias_defs + [{'from': self.from_(stage), 'to': self.to(stage)}]}
         if stage == 'from-repeat':
             m = {'from': self.pick(['A', ['@shift', 'A'], {'row': 'A'}, ['CAPSLOCK', {'row': 'q'}], [], 5, ['A', 'A'], ['@shift', 'LEFTSHIFT', 'A'],
-                                    ['B', 'A', 'B']]), 'repeat': self.repeat()}
+                                    ['B', 'A', 'B'], ['@undefined', 'A'], ['LEFTCTRL', '@shift', 'A']]), 'repeat': self.repeat()}
             if self.it.choose(2) == 0:
                 m['to'] = self.pick(['B', {'letters': 'ab'}, [], '@x'])
             return {'mappings': alias_defs + [m]}
         if stage == 'absorbing':
-            return {'mappings': alias_defs + [{'from': self.pick([['LEFTSHIFT', 'A'], ['@shift', 'A'], 'A', ['@shift', {'row': 'A'}], ['CAPSLOCK', 'LEFTSHIFT', 'A']]),
+            return {'mappings': alias_defs + [{'from': self.pick([['LEFTSHIFT', 'A'], ['@shift', 'A'], 'A', ['@shift', {'row': 'A'}], ['CAPSLOCK', 'LEFTSHIFT', 'A'],
+                                                                  ['CAPSLOCK', '@shift', 'A'], ['@undefined', 'A']]),
                                               'to': self.pick(['B', {'letters': 'ab'}, '@x']), 'absorbing': self.absorbing()}]}
         if stage == 'alias':
             return {'mappings': [{'from': self.from_('alias'), 'to': self.pick(['@shift', ['LEFTCTRL', '@shift'], ['@shift', '@shift'], ['LEFTCTRL', 'LEFTCTRL', '@shift']])},
